@@ -4,7 +4,7 @@ IsDefined, Names, Values, NameMap, ValueMap) and of the `set` closure and the en
 `(*Type).resolve` (`pkg/yang/types.go`), as the code is after repair 85b770e (the first member gets 0,
 the running maximum is the highest value so far also below zero, `SetNext` compares with `e.max`).
 
-Go maps are association lists with unique keys: `insert` removes an older binding of the key and puts
+Go maps are association lists with unique keys: `mapSet` removes an older binding of the key and puts
 the new one in front; views sort by key, so the representation order never shows.
 `int64` arithmetic (`e.last+1`) is written with its two's-complement wrap.  Core Lean only.
 -/
@@ -30,13 +30,13 @@ def EnumErr.name : EnumErr → String
   | .needValue => "needValue" | .num e => "num." ++ e.name
 
 /-- Go map lookup -/
-def lookup {α β : Type} [DecidableEq α] (m : List (α × β)) (k : α) : Option β :=
+def mapGet {α β : Type} [DecidableEq α] (m : List (α × β)) (k : α) : Option β :=
   match m with
   | [] => none
-  | (k', v) :: rest => if k' = k then some v else lookup rest k
+  | (k', v) :: rest => if k' = k then some v else mapGet rest k
 
 /-- Go map assignment `m[k] = v` -/
-def insert {α β : Type} [DecidableEq α] (m : List (α × β)) (k : α) (v : β) : List (α × β) :=
+def mapSet {α β : Type} [DecidableEq α] (m : List (α × β)) (k : α) (v : β) : List (α × β) :=
   (k, v) :: m.filter (fun p => p.1 ≠ k)
 
 /-- Go: `EnumType` -/
@@ -63,13 +63,13 @@ def newBitfield : EnumType :=
 
 /-- Go: `(*EnumType).Set(name, value)`; on an error the receiver is unchanged -/
 def EnumType.set (e : EnumType) (name : Name) (value : Int) : Except EnumErr EnumType :=
-  if (lookup e.toInt name).isSome then .error .dupName
-  else if e.unique && (lookup e.toString value).isSome then .error .dupValue
+  if (mapGet e.toInt name).isSome then .error .dupName
+  else if e.unique && (mapGet e.toString value).isSome then .error .dupValue
   else if value < e.min then .error .tooSmall
   else if value > e.max then .error .tooLarge
   else
     let last := if e.toInt.length = 0 || value ≥ e.last then value else e.last
-    .ok { e with last := last, toString := insert e.toString value name, toInt := insert e.toInt name value }
+    .ok { e with last := last, toString := mapSet e.toString value name, toInt := mapSet e.toInt name value }
 
 /-- Go: `(*EnumType).SetNext(name)`; `e.last+1` is an `int64` addition -/
 def EnumType.setNext (e : EnumType) (name : Name) : Except EnumErr EnumType :=
@@ -155,12 +155,12 @@ def EnumType.nameMap (e : EnumType) : List (Name × Int) := sortBy (fun a b => n
 def EnumType.valueMap (e : EnumType) : List (Int × Name) := sortBy (fun a b => decide (a.1 < b.1)) e.toString
 
 /-- Go: `Name(value)`: the empty string when absent -/
-def EnumType.nameOf (e : EnumType) (v : Int) : Name := (lookup e.toString v).getD []
+def EnumType.nameOf (e : EnumType) (v : Int) : Name := (mapGet e.toString v).getD []
 
 /-- Go: `Value(name)`: 0 when absent -/
-def EnumType.valueOf (e : EnumType) (n : Name) : Int := (lookup e.toInt n).getD 0
+def EnumType.valueOf (e : EnumType) (n : Name) : Int := (mapGet e.toInt n).getD 0
 
 /-- Go: `IsDefined(name)` -/
-def EnumType.isDefined (e : EnumType) (n : Name) : Bool := (lookup e.toInt n).isSome
+def EnumType.isDefined (e : EnumType) (n : Name) : Bool := (mapGet e.toInt n).isSome
 
 end Goyang.Model.Enum
